@@ -23,7 +23,7 @@ from props.C13 import L, M, Builder, c_index, c_obs, c_raw, c_tree, doc_leaves, 
 
 COQ_TARGETS = ["props/P_C10.vo", "corr/Corr_C10.vo"]
 PROOF_FILES = ["proofs/ErrScan_proofs.v"]
-RULE = ("(a) Python values (dict/MapType/list/tuple/ListType nests, depth<=5) with CELEvalError objects at random "
+RULE = ("keys include dotted, empty and colliding dotted-path spellings; (a) Python values (dict/MapType/list/tuple/ListType nests, depth<=5) with CELEvalError objects at random "
         "positions, through check_for_celevalerror; (b) spec documents (nested maps/lists, depth<=4) with 0-2 failing "
         "expressions (35 kinds: arithmetic, missing members, macro bodies, koreo custom functions, errors buried in "
         "computed maps/lists) at every / random positions, through prepare_expression+evaluate, "
@@ -81,7 +81,7 @@ CLEAN_LEAVES = [
     ["cel", "=true || 1/0 > 0", True], ["cel", "=has(inputs.nope)", False], ["cel", "=false ? 1/0 : 2", 2],
     ["cel", "={'a': 1/0, 'b': 2}.b", 2],
 ]
-KEYS = ["a", "b", "c", "name", "spec", "x-y", "k1"]
+KEYS = ["a", "b", "c", "name", "spec", "x-y", "k1", "a.b", "", "b.c", "a.", ".a", "spec.name", "a.b.c"]
 BASE_INPUTS = {"s": {"t": 1}}
 
 
@@ -96,7 +96,14 @@ def rand_clean_doc(rng, depth, top_map=False):
     if top_map or r < 0.8:
         n = rng.choice([1, 1, 2, 3]) if top_map else rng.choice([0, 1, 2, 3])
         keys = rng.sample(KEYS, n)
-        return ["M", [[k, rand_clean_doc(rng, depth - 1)] for k in keys]]
+        entries = [[k, rand_clean_doc(rng, depth - 1)] for k in keys]
+        # adversarial key shapes: a sibling whose key spells the dotted path of a nested entry
+        for k, d in list(entries):
+            if d[0] == "M" and d[1] and rng.random() < 0.35:
+                twin = f"{k}.{rng.choice(d[1])[0]}"
+                if twin not in [e[0] for e in entries]:
+                    entries.insert(rng.randrange(len(entries) + 1), [twin, rand_clean_doc(rng, depth - 1)])
+        return ["M", entries]
     return ["A", [rand_clean_doc(rng, depth - 1) for _ in range(rng.choice([0, 1, 2, 3]))]]
 
 
@@ -129,6 +136,44 @@ def with_failures(rng, doc, k):
     for p in rng.sample(paths, min(k, len(paths))):
         doc = set_leaf(doc, p, rng.choice(FAIL_LEAVES))
     return doc
+
+
+def deep_failing(rng):
+    """a list- or map-valued leaf that holds a failing sub-expression below its top level (a directly
+    failing list item would make celpy's list literal fail as a whole)"""
+    leaf = rng.choice(FAIL_LEAVES)
+    shape = rng.choice(["list-of-maps", "map-in-list-in-list", "computed-map", "computed-list-of-maps"])
+    if shape == "list-of-maps":
+        return ["A", [M(("name", L(leaf)))]]
+    if shape == "map-in-list-in-list":
+        return ["A", [L(["lit", 1]), ["A", [M(("k", M(("j", L(leaf)))))]]]]
+    if shape == "computed-map":
+        return L(["err", rng.choice(["={'v': 1/0}", "={'v': {'w': inputs.nope}}", "={'v': [1, {'w': to_ref({})}]}"])])
+    return L(["err", rng.choice(["=[{'a': 1/0}]", "=[1, 2].map(x, {'v': x / 0})", "=[[{'a': inputs.nope.x}]]"])])
+
+
+def key_shape_docs(rng):
+    """maps whose keys contain dots / are empty / spell colliding dotted paths, with one deep-failing
+    value at each position in turn (all other values clean)"""
+    clean = lambda: L(rng.choice(CLEAN_LEAVES))
+    shapes = [
+        lambda x, y: M(("team.owner", x), ("team", M(("owner", y)))),
+        lambda x, y: M(("team", M(("owner", x))), ("team.owner", y)),
+        lambda x, y: M(("labels", M(("team.owner", x), ("team", M(("owner", y)))))),
+        lambda x, y: M(("a", M(("b.c", x))), ("a.b", M(("c", y)))),
+        lambda x, y: M(("a.b", M(("c", x))), ("a", M(("b", M(("c", y)))))),
+        lambda x, y: M(("", x), ("a", y)),
+        lambda x, y: M(("", M(("", x))), (".", y)),
+        lambda x, y: M(("a", M(("", x))), ("a.", y)),
+        lambda x, y: M(("a.", x), ("a", M(("", y)))),
+        lambda x, y: M(("", M(("a", x))), (".a", y)),
+        lambda x, y: M(("a.b", x), ("a", M(("b", y))), ("a.b.", clean())),
+        lambda x, y: M(("x", M(("a.b", x), ("a", M(("b", y)))))),
+    ]
+    for sh in shapes:
+        yield sh(deep_failing(rng), clean())
+        yield sh(clean(), deep_failing(rng))
+        yield sh(clean(), clean())
 
 
 def doc_fails(doc) -> bool:
@@ -680,6 +725,15 @@ def gen_cases(ctx: Ctx):
         yield {"mode": "overlay", "doc": M(("l", ["A", [M(("z", L(leaf)))]])), "base": {"l": [1]}, "tag": "each:list"}
     for leaf in CLEAN_LEAVES:
         yield {"mode": "eval", "doc": M(("x", L(leaf))), "tag": "clean"}
+    for rep in range(2 if ctx.quick() else 12):
+        for doc in key_shape_docs(rng):
+            yield {"mode": "overlay", "doc": doc, "base": rng.choice([{}, {"team": {"owner": "o"}, "a": {"b": 1}}]),
+                   "tag": "key-shapes"}
+            yield {"mode": "eval", "doc": doc, "tag": "key-shapes"}
+            yield {"mode": "vf", "preds": None, "locals": None, "ret": doc, "base": rng.choice([None, {"a": {"b": {"c": 0}}}]),
+                   "tag": "vf-key-shapes"}
+            yield {"mode": "vf", "preds": None, "locals": doc, "ret": M(("r", L(["lit", 1]))), "base": None,
+                   "tag": "vf-key-shapes"}
     yield {"mode": "eval", "doc": None, "tag": "no-expr"}
     yield {"mode": "predraw", "src": None, "tag": "predraw"}
     for src in PRED_SOURCES:
